@@ -1,5 +1,6 @@
 import DmrVerif.Driver.Loop
+import DmrVerif.Driver.Burst
 
-/-! model driver for property C01 (stub: no operations registered yet) -/
+/-! model driver for property C01 -/
 
-def main : IO Unit := Dmr.Driver.runMain []
+def main : IO Unit := Dmr.Driver.runMain [Dmr.Driver.burstOp, Dmr.Driver.pduOp]
